@@ -96,7 +96,19 @@ def gen_tone(rng):
         f = fch1 + (1 if asc else -1) * (k + frac) * cbw
         dur = spb * nb / sr
         drift = (1 if asc else -1) * per_row * rows * (cbw / L) / dur
-    second = (not many) and (not fast) and drift == 0.0 and rng.random() < 0.15
+    near = (not many) and (not fast) and drift == 0.0 and rng.random() < 0.12
+    if near:
+        # a tone a few fine bins from the centre of its coarse channel, in a block computed in the maximal number of sub-blocks with the
+        # quantisers' DEFAULT statistics (re-estimated at every call): over one short sub-block such a tone is almost a constant, and it must
+        # not be mistaken for an offset to be removed
+        # (many recorded channels, so that the requantiser's one mean over the whole sub-block is not dominated by the tone's channel; a fine
+        # FFT much longer than a sub-block)
+        nb = 32; cbw = sr / nb; nchans = rng.randint(12, 16); start = rng.randint(0, 16 - nchans); k = rng.randint(max(start, 1) + 2, start + nchans - 3)
+        L = 512; I = 1; rows = 2; spb = L * rows
+        frac = rng.choice([-1, 1]) * rng.uniform(2.6, 4.4) / L
+        f = fch1 + (1 if asc else -1) * (k + frac) * cbw
+        num_pols = rng.choice([1, 2]); nants = 1; bps = 2 * num_pols * nbits // 8
+    second = (not many) and (not fast) and (not near) and drift == 0.0 and rng.random() < 0.15
     if second:
         # the same source recorded twice (ON / OFF scans): the chirp goes on where the clock says, f_start + drift * t with t counted from the
         # start of the FIRST recording -- 2.5 to 3.5 fine bins further per recorded block
@@ -110,7 +122,7 @@ def gen_tone(rng):
              block_size=nants * nchans * bps * spb, blocks_per_file=1, num_subblocks=rng.choice([1, 2]), seed=rng.randint(0, 999),
              noise=[[0.0, 0.3]], signals=[dict(f_start=f, drift=drift, level=2.0, phase=rng.uniform(0, 6))], num_blocks=1, load_template=False,
              fftlength=L, int_factor=I, tone_hz=f, drift=drift, k=k, frac=frac, directio=rng.random() < 0.4,
-             req=dict(fwhm=8 if nbits == 4 else 32), fast=fast, second=second)
+             req=dict(fwhm=8 if nbits == 4 else 32), fast=fast, second=second, near=near)
     if nants > 1:
         c["delays"] = [0] * nants
     if fast or (drift and not second and rng.random() < 0.6):
@@ -119,6 +131,8 @@ def gen_tone(rng):
         c["num_subblocks"] = rng.choice([3, 5, 7])
         c["req"]["period"] = -1
         c["dig"] = dict(period=-1)
+    if near:
+        c["num_subblocks"] = spb // 32            # sub-blocks of 32 windows
     if many:
         # quantiser statistics frozen after the first call: a constant gain, so that cutting the block up adds no amplitude modulation of its own
         c["num_subblocks"] = spb // taps
@@ -196,7 +210,7 @@ def run(ctx):
         timpl.extend(part)
     for c, r, sv in zip(tcases, timpl, svals):
         ctx.count(dict(k="tone", c=c), nontrivial=(c["start_chan"] > 0 or not c["ascending"]))
-        ctx.tally("tone_kind", ("fast chirp" if c.get("fast") else "chirp in a second recording" if c.get("second") else "chirp") if c["drift"] else "tone"); ctx.tally("fftlength", c["fftlength"]); ctx.tally("int_factor", c["int_factor"])
+        ctx.tally("tone_kind", ("fast chirp" if c.get("fast") else "chirp in a second recording" if c.get("second") else "chirp") if c["drift"] else ("tone near the channel centre, maximal partition" if c.get("near") else "tone")); ctx.tally("fftlength", c["fftlength"]); ctx.tally("int_factor", c["int_factor"])
         ctx.tally("tone_bits_pols", "%d/%d" % (c["nbits"], c["num_pols"])); ctx.tally("subblocks", "maximal partition" if c["num_subblocks"] > 7 else c["num_subblocks"])
         fine = r["fine_hz"]
         rows = len(r["indep_peaks_hz"])
